@@ -317,7 +317,9 @@ pub fn predict(snap: &Snap, inv: &Inv, answer_yes: bool, oracle: &mut Oracle, mo
 }
 
 fn lines_of(b: &[u8]) -> Option<Vec<String>> {
-    std::str::from_utf8(b).ok().map(|t| cli::strip_trailing_empty(cli::read_wsca(t)))
+    // exactly the lines the tool wrote (a result word may begin or end with spaces), not what a
+    // reader of word files would make of them
+    std::str::from_utf8(b).ok().map(|t| cli::strip_trailing_empty(t.lines().map(|l| l.to_string()).collect()))
 }
 
 fn same_words(b: &[u8], want: &[String]) -> bool {
@@ -695,6 +697,12 @@ fn note_probes(st: &mut Stats, p: &Project, inv: &Inv, e: &Expect, before: &Snap
 }
 
 pub fn run_history(root: &str, scn: &mut Scn, oracle: &mut Oracle, st: &mut Stats) -> Option<Fail> {
+    let r = run_history_inner(root, scn, oracle, st);
+    cli::set_iocap(0);
+    r
+}
+
+fn run_history_inner(root: &str, scn: &mut Scn, oracle: &mut Oracle, st: &mut Stats) -> Option<Fail> {
     cli::write_tree(root, &scn.files, &scn.dirs);
     COMPOSITION_IS_VERDICT.with(|c| c.set(scn.directed.is_some()));
     COMPOSITION_MISMATCHES.with(|c| c.set(0));
@@ -729,6 +737,10 @@ pub fn run_history(root: &str, scn: &mut Scn, oracle: &mut Oracle, st: &mut Stat
             }
         };
         note_probes(st, &model.p, &inv, &e, &before);
+        cli::set_iocap(inv.iocap);
+        if inv.iocap > 0 {
+            st.probe("invocations_under_transfer_cap");
+        }
         let rec = cli::exec(root, &inv.cwd, &args, &stdin, inv.detrand, inv.dirseed, &vec![]);
         st.invocations += 1;
         st.ops += rec.ops.len() as u64;
@@ -1010,7 +1022,7 @@ pub fn directed_cases() -> Vec<Scn> {
         files.insert(format!("{PROJ}/first.rsca"), format!("@ First\n{}\n", r1.iter().map(|x| format!("    {x}")).collect::<Vec<_>>().join("\n")));
         files.insert(format!("{PROJ}/second.rsca"), format!("@ Second\n{}\n", r2.iter().map(|x| format!("    {x}")).collect::<Vec<_>>().join("\n")));
         files.insert(format!("{PROJ}/lex.wsca"), format!("{word}\n"));
-        let inv = |cmd: Cmd| Inv { cmd, cwd: PROJ.to_string(), answer: "y".into(), detrand: 12345, dirseed: 0, class: FaultClass::None, plan: vec![], fault_seed: 0, recover: false };
+        let inv = |cmd: Cmd| Inv { cmd, cwd: PROJ.to_string(), answer: "y".into(), detrand: 12345, dirseed: 0, class: FaultClass::None, plan: vec![], fault_seed: 0, recover: false, iocap: 0 };
         let invs = vec![
             inv(Cmd::Seq { path: None, tag: None, output: true, all_steps: false, overwrite: Some(true), output_all: false }),
             inv(Cmd::ConvTag { path: None, tag: "child".into(), recurse: true, output: Some("export.json".into()) }),
@@ -1143,6 +1155,7 @@ pub fn main_c20(tier_name: &str, seed: u64) -> i32 {
                 plan: vec![],
                 fault_seed: 0,
                 recover: false,
+                iocap: 0,
             });
             let mut fails = Vec::new();
             let mut placements = 0u64;
